@@ -286,3 +286,50 @@ theorem restartTags_distribution (G : TT S Unit) (tags0 : Tags S Unit) (data : L
       exact Rat.mul_pos (hpos P hP) (Rat.inv_pos.mpr hsum)
 
 end PS.C10.RG
+
+namespace PS.C10.RG
+open PS PS.G
+variable {S : Type} [DecidableEq S]
+
+/-- **model = specification**: the weight `_restart_` gives a rule is `specWeight`: (accumulated score +
+    prior/|row|) divided by the sum of these numbers over the rules of the non-terminal -/
+theorem restartTags_specWeight (G : TT S Unit) (tags0 : Tags S Unit) (data : List (Prog × Rat)) (prior : Rat)
+    (hcov : Covers G tags0) (hrows : RowsOf G tags0) (hdata : ∀ d ∈ data, gen G d.1 G.start = true) :
+    ∃ t, restartTags G tags0 data prior = some t ∧
+      ∀ nt rs, AList.lookup nt G.rules = some rs → (AList.keys rs).Nodup →
+        ∀ P ∈ AList.keys rs, weight t nt P = specWeight G data prior nt (AList.keys rs) P := by
+  obtain ⟨u, h1, hru, h2, h3⟩ := restartTags_rows G tags0 data prior hcov hrows hdata
+  refine ⟨normalise u, h1, ?_⟩
+  intro nt rs hrs hnd P hP
+  have hrule : ∀ Q ∈ AList.keys rs, (G.rule? nt Q).isSome = true := by
+    intro Q hQ
+    have : (AList.lookup Q rs).isSome = true := AList.lookup_isSome_iff_mem_keys.mpr hQ
+    simp [TT.rule?, hrs, this]
+  -- the row of `u`
+  have hsu : (tagOf u nt P).isSome = true := by rw [h2]; exact hcov nt P (hrule P hP)
+  obtain ⟨row, hrow⟩ : ∃ row, AList.lookup nt u = some row := by
+    unfold tagOf at hsu
+    cases hl : AList.lookup nt u with
+    | none => rw [hl] at hsu; cases hsu
+    | some row => exact ⟨row, rfl⟩
+  obtain ⟨rs', g1, g2⟩ := hru nt row hrow
+  rw [hrs] at g1
+  cases g1
+  obtain ⟨n1, _, _⟩ := normalise_weights u nt row hrow
+  have hwu : ∀ Q ∈ AList.keys rs, weight u nt Q =
+      accScore G data nt Q + (if 0 < prior then prior else 0) * (1 / ((AList.keys rs).length : Rat)) := by
+    intro Q hQ
+    rw [h3 nt Q (hcov nt Q (hrule Q hQ)),
+      weight_uniform_row G nt rs Q hrs (AList.lookup_isSome_iff_mem_keys.mpr hQ)]
+    have : (AList.keys rs).length = rs.length := by simp [AList.keys]
+    rw [this]
+    by_cases hp : 0 < prior <;> simp [hp, Rat.zero_mul]
+  rw [n1 P, rowSum_eq_weights u nt row hrow (by rw [g2]; exact hnd), g2]
+  unfold specWeight
+  simp only
+  rw [hwu P hP]
+  congr 1
+  congr 1
+  exact List.map_congr_left (fun Q hQ => hwu Q hQ)
+
+end PS.C10.RG
